@@ -951,6 +951,9 @@ fn gen_ext_task(rng: &mut Rng, origin: String) -> ExtTask {
                 "definition: forall X (dm(X) <-> in1(X) and in1(Y)).",
                 "definition: forall X (dm(X) <-> nowhere(X)).",
                 "definition: forall X (out1(X) <-> in1(X)).",
+                // accepted definitions over symbol-sorted and mixed-sort variables
+                "definition: forall X$s (ds(X$s) <-> in1(X$s)). lemma: forall X$s (ds(X$s) -> in1(X$s)).",
+                "definition: forall X$s Y$i Z (dt(X$s, Y$i, Z) <-> in1(X$s) and in1(Y$i) and in1(Z)).",
                 // the same named lemma stated again (each statement has to be proved in its own directions)
                 "lemma(forward)[a]: forall X (in1(X) -> out1(X)). lemma(backward)[a]: forall X (in1(X) -> out1(X)).",
                 "lemma(forward)[a]: forall X (in1(X) -> out1(X)). lemma[a]: forall X (in1(X) -> out1(X)).",
@@ -1231,17 +1234,25 @@ fn external(seed: u64, n: usize, corpus: Option<&Path>, text: bool) -> Vec<Case>
 
 // ------------------------------------------------------------------ files
 
-enum FT { File(String), Dir(String, Vec<FT>) }
+enum FT { File(String), Dir(String, Vec<FT>), Link(String) }
 
 fn ft_sexp(t: &FT) -> String {
     match t {
         FT::File(n) => format!("(f {})", sexp::q(n)),
         FT::Dir(n, cs) => format!("(d {} {})", sexp::q(n), sexp::list(cs.iter().map(ft_sexp))),
+        FT::Link(n) => format!("(l {})", sexp::q(n)),
     }
 }
 
 fn ft_create(root: &Path, t: &FT) {
     match t {
+        FT::Link(n) => {
+            // a symbolic link to a regular file that lies outside every argument
+            let target = std::env::current_dir().unwrap().join("work").join("files_link_target.lp");
+            if !target.exists() { let _ = std::fs::write(&target, ""); }
+            #[cfg(unix)]
+            { let _ = std::os::unix::fs::symlink(&target, root.join(n)); }
+        }
         FT::File(n) => { std::fs::write(root.join(n), "").unwrap(); }
         FT::Dir(n, cs) => {
             let d = root.join(n);
@@ -1258,6 +1269,9 @@ fn gen_ft(rng: &mut Rng, depth: usize, used: &mut Vec<String>) -> FT {
         let name = format!("{}{}", rng.pick(STEMS), rng.pick(EXTS));
         if name.is_empty() || name == "." || name == ".." || used.contains(&name) { continue; }
         used.push(name.clone());
+        if rng.chance(1, 12) {
+            return FT::Link(name);
+        }
         if depth > 0 && rng.chance(1, 4) {
             let k = rng.below(5);
             let mut inner = vec![];
@@ -1280,7 +1294,7 @@ fn files(seed: u64, n: usize) -> Vec<Case> {
         let args: Vec<FT> = (0..k).map(|_| gen_ft(&mut rng, 2, &mut used)).collect();
         for a in &args { ft_create(&root, a); }
         let req = format!("(files_sort {})", sexp::list(args.iter().map(ft_sexp)));
-        let paths: Vec<std::path::PathBuf> = args.iter().map(|a| root.join(match a { FT::File(n) | FT::Dir(n, _) => n })).collect();
+        let paths: Vec<std::path::PathBuf> = args.iter().map(|a| root.join(match a { FT::File(n) | FT::Dir(n, _) | FT::Link(n) => n })).collect();
         let rootc = root.clone();
         let imp = guarded(move || {
             let rel = |p: &std::path::PathBuf| sexp::q(&p.strip_prefix(&rootc).unwrap().to_string_lossy());
